@@ -4,7 +4,8 @@ import vkit
 
 PATS = [["C", "L"], ["a", "b"], ["b"], ["L"], ["a", "a"]]      # must equal Pats in specs/Evbuffer.tla
 # DataCat indices (1-based) of specs/Evbuffer.tla
-DATA = {"": 1, "a": 2, "b": 3, "C": 4, "L": 5, "N": 6, "aCL": 7, "ab": 8, "CL": 9, "bLa": 10, "aa": 11, "LC": 12, "bNa": 13, "aC": 14}
+DATA = {"": 1, "a": 2, "b": 3, "C": 4, "L": 5, "N": 6, "aCL": 7, "ab": 8, "CL": 9, "bLa": 10, "aa": 11, "LC": 12, "bNa": 13, "aC": 14,
+        "bL": 15, "bCL": 16, "bCLC": 17, "bCLCL": 18, "bNaC": 19}
 
 C12_ACTS = {"add", "addref", "prepend", "printf", "addiov", "rescommit", "addbuf", "prependbuf", "rmbuf", "addbufref",
             "addfile", "drain", "remove", "copyout", "pullup", "expand", "readln", "freeze", "unfreeze"}
